@@ -1,6 +1,7 @@
 (* C07 — error stops and fatal exceptions are never backtracked over.  Statements only. *)
 From Coq Require Import List ZArith NArith Bool.
 From PP Require Import Model.Str Model.Results Model.Prog Model.Core Proofs.Walk Proofs.Fatal Gen.GenExc.
+From PP Require Import Model.Entry Model.LR Proofs.LRFatal Proofs.LRTie.
 Import ListNotations.
 
 (* ---- the tie to the code: class hierarchy and `except` clauses, regenerated on every run ---- *)
@@ -118,3 +119,32 @@ Example C07_instance :
   exists m el, parse (step []) 10 (mkargs g [97; 99]%N 0 true true) = Some (Err (mkx XSyntax 1 m el))
   /\ transparent1 g = true.
 Proof. vm_compute. eexists. eexists. split; reflexivity. Qed.
+
+(* ---- Forward under enable_left_recursion(): the growth loop of Forward.parseImpl (Model/LR.v lr_loop) catches ParseException only.
+   Whatever the memo holds, however far the seed has grown, and for every semantics `rec` of the body: an exception of the body
+   that is not a ParseException - ParseFatalException, ParseSyntaxException - leaves the loop at once, unchanged, *)
+(* ... from the look-ahead evaluation (do_actions=False) of any round *)
+Theorem C07_lr_peek_escapes : forall rec f a body s loc d prev_loc prev_peek m x m1,
+  super_impl rec a body s loc false m = Some (Err x, m1) -> is_pe (xk x) = false ->
+  lr_loop rec (S f) a body s loc d prev_loc prev_peek m = Some (Err x, m1).
+Proof. exact lr_loop_peek_escapes. Qed.
+
+(* ... and from the action evaluation (do_actions=True) of a round that grew *)
+Theorem C07_lr_act_escapes : forall rec f a body s loc prev_loc prev_peek m l r m1 x m2,
+  super_impl rec a body s loc false m = Some (Ok l r, m1) -> (prev_loc < Z.of_nat l)%Z ->
+  super_impl rec a body s loc true m1 = Some (Err x, m2) -> is_pe (xk x) = false ->
+  lr_loop rec (S f) a body s loc true prev_loc prev_peek m = Some (Err x, m2).
+Proof. exact lr_loop_act_escapes. Qed.
+
+(* Forward.parseImpl itself: a fatal exception of the body's first evaluation leaves the Forward with its class unchanged
+   (the exception's location/element may be filled in by ParseElementEnhance.parseImpl), for every memo without an entry here *)
+Theorem C07_lr_forward_fatal : forall rec a body s loc d m x0 m1,
+  memo_get m (loc, nid a, d) = None ->
+  (forall m', rec m' (mkargs body s loc false false) = Some (Err x0, m1)) ->
+  is_fatal (xk x0) = true ->
+  exists x, lr_forward rec a body s loc d m = Some (Err x, m1) /\ xk x = xk x0.
+Proof. exact lr_forward_fatal_escapes. Qed.
+
+(* the `except ParseException:` clauses of that loop, as the source has them now (Gen/GenMemo.v is regenerated from /repo) *)
+Theorem C07_lr_source_pinned : lr_source_text.
+Proof. exact lr_source_pinned. Qed.
